@@ -109,6 +109,9 @@ struct Epoch {
     done: bool,
     /// the client gave the piece up (another connection completed it first)
     cancelled: bool,
+    /// tile has a block that the peer sent *before* this epoch began (an earlier assignment of the
+    /// same piece): it may still have been in flight and legitimately answer a request of this epoch
+    pre: Vec<bool>,
     start_seq: u64,
     last_answer_ms: u64,
 }
@@ -122,7 +125,7 @@ pub fn check_tiling(t: &Torrent, o: &Outcome, a: &str, stats: &mut HashMap<&'sta
             if *kind == "PieceDone" && e.addr == a {
                 match ep.as_mut() {
                     Some(x) if !x.done => {
-                        if x.answered.iter().any(|b| !*b) {
+                        if x.answered.iter().zip(x.pre.iter()).any(|(b, p)| !*b && !*p) {
                             let missing: Vec<&(u32, u32)> = x.tiles.iter().zip(x.answered.iter()).filter(|(_, a)| !**a).map(|(t, _)| t).collect();
                             return Some(Finding { sig: "C10:completed-before-last-block".into(), what: format!("piece {} reported complete while blocks {:?} were never answered", x.piece, missing), at_seq: e.seq });
                         }
@@ -159,7 +162,16 @@ pub fn check_tiling(t: &Torrent, o: &Outcome, a: &str, stats: &mut HashMap<&'sta
                     }
                     let tiles = tiling(t.piece_len_of(iu));
                     let nt = tiles.len();
-                    ep = Some(Epoch { piece: iu, tiles, sent: 0, answered: vec![false; nt], outstanding: vec![], done: false, cancelled: false, start_seq: e.seq, last_answer_ms: 0 });
+                    let mut pre = vec![false; nt];
+                    for old in o.events.iter().take_while(|x| x.seq < e.seq) {
+                        if old.addr == a && old.conn == e.conn {
+                            if let EvKind::PeerSent { msg: Some(Msg::Piece(pi, pb, pd)), .. } = &old.kind {
+                                if *pi as usize == iu { if let Some(k) = tiles.iter().position(|tl| *tl == (*pb, pd.len() as u32)) { pre[k] = true; } }
+                            }
+                        }
+                    }
+                    if pre.iter().any(|b| *b) { *stats.entry("epochs_with_possibly_inflight_blocks").or_default() += 1; }
+                    ep = Some(Epoch { piece: iu, tiles, sent: 0, answered: vec![false; nt], outstanding: vec![], done: false, cancelled: false, pre, start_seq: e.seq, last_answer_ms: 0 });
                     *stats.entry("epochs").or_default() += 1;
                 }
                 let x = match ep.as_mut() { Some(x) => x, None => return Some(Finding { sig: "C10:request-not-starting-at-zero".into(), what: format!("first request of an assignment is ({},{},{})", i, b, l), at_seq: e.seq }) };
@@ -174,7 +186,7 @@ pub fn check_tiling(t: &Torrent, o: &Outcome, a: &str, stats: &mut HashMap<&'sta
                 x.outstanding.push(x.sent);
                 x.sent += 1;
                 // never more than 2 + accepted answers that could have been seen
-                let accepted = x.answered.iter().filter(|b| **b).count();
+                let accepted = x.answered.iter().zip(x.pre.iter()).filter(|(a, p)| **a || **p).count();
                 if x.sent > 2 + accepted {
                     return Some(Finding { sig: "C10:more-than-two-requests-in-flight".into(), what: format!("{} requests sent for piece {} while only {} blocks were answered", x.sent, x.piece, accepted), at_seq: e.seq });
                 }
@@ -186,7 +198,7 @@ pub fn check_tiling(t: &Torrent, o: &Outcome, a: &str, stats: &mut HashMap<&'sta
                             let k = x.outstanding.remove(pos);
                             // first accepted answer of the epoch: the up-front requests are all out
                             // (the tiler waits >= 5 ms of virtual time before answering)
-                            if !x.answered.iter().any(|b| *b) {
+                            if !x.answered.iter().any(|b| *b) && !x.pre.iter().any(|b| *b) {
                                 let want = x.tiles.len().min(2);
                                 if x.sent != want {
                                     return Some(Finding { sig: "C10:wrong-number-of-upfront-requests".into(), what: format!("{} request(s) sent up front for a piece of {} blocks (expected {})", x.sent, x.tiles.len(), want), at_seq: e.seq });
@@ -214,7 +226,7 @@ pub fn check_tiling(t: &Torrent, o: &Outcome, a: &str, stats: &mut HashMap<&'sta
     // and a fully answered piece was completed
     if let Some(x) = &ep {
         let choked_now = snap.as_ref().and_then(|s| s.peers.iter().find(|p| p.addr == a)).map(|p| p.choked).unwrap_or(true);
-        if !closed && !x.done && !x.cancelled && !choked_now && x.last_answer_ms + 2_000 < o.end_ms && o.events.iter().rev().find(|e| e.addr == a && matches!(e.kind, EvKind::PeerSent { .. })).map(|e| e.ms + 2_000 < o.end_ms).unwrap_or(true) {
+        if !closed && !x.done && !x.cancelled && !x.pre.iter().any(|b| *b) && !choked_now && x.last_answer_ms + 2_000 < o.end_ms && o.events.iter().rev().find(|e| e.addr == a && matches!(e.kind, EvKind::PeerSent { .. })).map(|e| e.ms + 2_000 < o.end_ms).unwrap_or(true) {
             let accepted = x.answered.iter().filter(|b| **b).count();
             let want = x.tiles.len().min(2 + accepted);
             *stats.entry("quiescent_epochs_checked").or_default() += 1;
@@ -269,7 +281,7 @@ pub fn run(ctx: &Ctx) -> Report {
     let mut r = ctx.rng("c10");
     let n = ctx.count(2_000, 50_000);
     for k in 0..n {
-        let seed = r.next();
+        let seed = ctx.scenario_seed(r.next());
         let mut sr = Rng::new(seed);
         let sc = gen_scenario(&mut sr, seed);
         let t = sc.cfg.torrent.clone();
